@@ -128,6 +128,12 @@ func (r *Recorder) latency(side, op, node string) {
 		h = (h ^ uint32(c)) * 16777619
 	}
 	m := h % 8
+	if r.Heavy {
+		// every operation takes 0.2-1.2 ms so that operations of concurrent tasks
+		// overlap and permits are contended
+		time.Sleep(time.Duration((h>>8)%1000+200) * time.Microsecond)
+		return
+	}
 	switch {
 	case m < 3:
 	case m < 6:
@@ -135,11 +141,7 @@ func (r *Recorder) latency(side, op, node string) {
 			runtime.Gosched()
 		}
 	default:
-		d := time.Duration((h>>8)%300+20) * time.Microsecond
-		if r.Heavy {
-			d *= 4
-		}
-		time.Sleep(d)
+		time.Sleep(time.Duration((h>>8)%300+20) * time.Microsecond)
 	}
 }
 
